@@ -771,7 +771,12 @@ func evalIterateStmt(vm *r.VM, node *syntax.IterateStmt) error {
 	// execute iterations
 	switch tv := targetExpr.(type) {
 	case *value.Array:
-		for idx, v := range tv.GetValue() {
+		// the loop visits the items the list holds when it starts, each one once, whatever
+		// its body does to the list meanwhile (as for dictionaries below). Ranging over the
+		// list's own storage showed the body's changes or not, depending on whether the
+		// change happened to re-allocate that storage.
+		items := append([]r.Element(nil), tv.GetValue()...)
+		for idx, v := range items {
 			// in iterate statement, index starts from 1 instead of 0
 			realIdx := idx + 1
 			idxVar := value.NewNumber(float64(realIdx))
